@@ -488,22 +488,48 @@ type ParseResult struct {
 	Err string
 }
 
-// Parse runs XParsingContext.Init + Parse under recover.
-func (e *Entry) Parse(reader enc.ParseReader, ic bool) (res ParseResult) {
+// RawResult is the outcome of a parser call before it is rendered (rendering allocates; C04 measures the call only).
+type RawResult struct {
+	Panic string
+	Err   string
+	Val   reflect.Value
+	Ctx   reflect.Value
+}
+
+// ParseRaw runs XParsingContext.Init + Parse under recover.
+func (e *Entry) ParseRaw(reader enc.ParseReader, ic bool) (res RawResult) {
 	defer func() {
 		if r := recover(); r != nil {
-			res = ParseResult{Res: "panic", Aux: "-", Err: fmt.Sprint(r)}
+			res = RawResult{Panic: fmt.Sprint(r)}
 		}
 	}()
 	ctx := reflect.New(e.C)
 	ctx.MethodByName("Init").Call(nil)
 	out := ctx.MethodByName("Parse").Call([]reflect.Value{reflect.ValueOf(reader), reflect.ValueOf(ic)})
 	if !out[1].IsNil() {
-		return ParseResult{Res: "err", Aux: "-", Err: out[1].Interface().(error).Error()}
+		return RawResult{Err: out[1].Interface().(error).Error()}
 	}
 	if out[0].IsNil() {
-		return ParseResult{Res: "err", Aux: "-", Err: "nil value without error"}
+		return RawResult{Err: "nil value without error"}
 	}
+	return RawResult{Val: out[0], Ctx: ctx}
+}
+
+// Parse = ParseRaw + Render.
+func (e *Entry) Parse(reader enc.ParseReader, ic bool) ParseResult {
+	return e.Render(e.ParseRaw(reader, ic))
+}
+
+// Render prints a raw result in the canonical syntax.
+func (e *Entry) Render(raw RawResult) (res ParseResult) {
+	if raw.Panic != "" {
+		return ParseResult{Res: "panic", Aux: "-", Err: raw.Panic}
+	}
+	if raw.Err != "" {
+		return ParseResult{Res: "err", Aux: "-", Err: raw.Err}
+	}
+	ctx := raw.Ctx
+	out := []reflect.Value{raw.Val}
 	// parsing context: marker offsets and covered ranges, by field position
 	ints := make([]string, len(e.M.Fields))
 	covs := make([]string, len(e.M.Fields))
@@ -581,7 +607,11 @@ func segsStr(w enc.Wire) string {
 	for i, s := range w {
 		parts[i] = hx(s)
 	}
-	return strings.Join(parts, "|")
+	r := strings.Join(parts, "|")
+	if r == "" { // one empty segment: printed as two (fields of a trace line must not be empty)
+		return "|"
+	}
+	return r
 }
 
 func hexOrDash(b []byte) string {
